@@ -42,6 +42,39 @@ def schema_of(binary, mode="schema"):
     return so.strip()
 
 
+def typed_nil_shape(r, mj, why):
+    """F01b's shape: the ONLY difference from the model is that the non-null error is missing at positions where the
+    resolver returned a nil pointer held in the Go interface of a non-null interface / union position"""
+    if why != ["errors"] or not isinstance(mj, dict) or not r.get("payloads"):
+        return None
+    def typed(v, path, out):
+        if not v:
+            return
+        if v.get("k") == "null" and v.get("typedNil"):
+            out.add(path)
+        for i, e in enumerate(v.get("l") or []):
+            typed(e, "%s/%d" % (path, i), out)
+    paths = set()
+    for i in r["log"]:
+        typed(i.get("val"), i["path"], paths)
+    if not paths:
+        return None
+    impl = sorted(e["path"] + " :: " + e["message"] for e in r["payloads"][0]["errors"])
+    missing = list(mj["errors"])
+    for e in impl:
+        if e not in missing:
+            return None
+        missing.remove(e)
+    def at_typed_nil(e):
+        p, _, m = e.partition(" :: ")
+        # a list element's error carries the list's path when the element has no field context of its own
+        return ("must not be null" in m or "requested element is null" in m) and \
+            (p in paths or any(q.startswith(p + "/") for q in paths))
+    if missing and all(at_typed_nil(e) for e in missing):
+        return {"why": "errors", "typed_nil_at_nonnull_abstract_position": True, "only_the_null_errors_are_missing": True}
+    return None
+
+
 def classify(r):
     """branch tags of a case (for the input distribution and the non-triviality rule)"""
     tags = set()
@@ -259,6 +292,9 @@ def run(ctx):
             shape = {"spec_disagrees": True, "duplicate_keys": not mj.get("wf"),
                      "dups_only_under_unrelated_type_conditions": bool(mj.get("dupsUnrelated")) and not mj.get("wf"),
                      "corresponds_to_impl_model": len(why) == len(spec_bad)}
+        tn = typed_nil_shape(r, mj, why)
+        if tn:
+            shape = tn
         rep = {"kind": "spec-violation" if spec_bad else "correspondence", "config": cfg, "why": why, "query": r["query"],
                "variables": r.get("variables"), "plan": r.get("plan"),
                "impl": r["payloads"], "model": mj, "shape": shape,
